@@ -722,19 +722,20 @@ func (ex *Exec) lazyDiamond(b *ssa.BasicBlock) bool {
 	res := false
 	defer func() { ex.lazyCache[b] = res }()
 	j := ex.ipdom(b)
-	if j == nil {
-		return false
-	}
 	fi := ex.info(b.Parent())
-	lb, lj := fi.loops[b.Index], fi.loops[j.Index]
-	if len(lb) != len(lj) {
-		return false
-	}
-	for i := range lb {
-		if lb[i] != lj[i] {
+	lb := fi.loops[b.Index]
+	if j != nil {
+		lj := fi.loops[j.Index]
+		if len(lb) != len(lj) {
 			return false
 		}
+		for i := range lb {
+			if lb[i] != lj[i] {
+				return false
+			}
+		}
 	}
+	// j == nil: all arms must end in plain returns (they rejoin in the caller right after the call)
 	// region between b and j: small, acyclic (no block of a deeper loop), no calls
 	seen := map[*ssa.BasicBlock]bool{}
 	stack := append([]*ssa.BasicBlock{}, b.Succs...)
@@ -755,8 +756,12 @@ func (ex *Exec) lazyDiamond(b *ssa.BasicBlock) bool {
 		}
 		for _, in := range x.Instrs {
 			switch in.(type) {
-			case *ssa.Call, *ssa.Go, *ssa.Defer, *ssa.Panic, *ssa.Return, *ssa.RunDefers, *ssa.Select, *ssa.Send:
+			case *ssa.Call, *ssa.Go, *ssa.Defer, *ssa.Panic, *ssa.RunDefers, *ssa.Select, *ssa.Send:
 				return false
+			case *ssa.Return:
+				if j != nil {
+					return false
+				}
 			}
 		}
 		stack = append(stack, x.Succs...)
